@@ -8,7 +8,9 @@ use crate::{
     CompilationError, VecErr,
 };
 
-use super::{new_err, Callable, Compile, FunctionArguments, TypeLayout};
+use super::{
+    new_err, Callable, Compile, Dependencies, Dependency, FunctionArguments, TypeLayout,
+};
 
 #[derive(Debug)]
 pub(crate) enum DotLookupOption {
@@ -78,6 +80,18 @@ impl Compile for DotLookupOption {
                 Ok(result)
             }
         }
+    }
+}
+
+impl Dependencies for DotChain {
+    fn dependencies(&self) -> Vec<Dependency> {
+        let mut result = vec![];
+        for link in &self.links {
+            if let DotLookupOption::FunctionCall { arguments, .. } = link {
+                result.append(&mut arguments.net_dependencies());
+            }
+        }
+        result
     }
 }
 
